@@ -305,8 +305,10 @@ pub fn classify(p: &Prog, arg: &Arg, j: &Judged, cx: &mut Cx) -> Option<&'static
             // N15 (open): on a single-tuple scrutinee, a branch that records a field-specific
             // complement followed by a branch with a type-ascribed binder in a field makes the
             // block count as exhaustive; 1d5e1cb repaired only the union-scrutinee case
-            let typed_bind_in_tuple = plain.contains("#[(") && (plain.contains(")v") || plain.contains(")u"));
-            return Some(if typed_bind_in_tuple { SIG_FIELD_COMPL_TYPED } else { SIG_FIELD_COMPL });
+            // (the later branch's field pattern is a type assertion: `('int)v` or `'int`); the
+            // scrutinee is the tuple-of-unions parameter `#[(…), (…)]`
+            let tuple_scrutinee = plain.contains("#[(");
+            return Some(if tuple_scrutinee { SIG_FIELD_COMPL_TYPED } else { SIG_FIELD_COMPL });
         }
     }
     // K9: the failure disappears when partial patterns over a known tuple variant are written as
@@ -482,7 +484,7 @@ fn report_failure(ev: &mut Ev, p: &Prog, arg: &Arg, j: &Judged, cx: &mut Cx, ori
                 SIG_REC_BACKREF => "a type taken out of a recursive alias (binder at a recursive position, field access or embedding of a complement-narrowed recursive value, case-table guard) keeps a `Cycle` back-reference that is later resolved against the wrong enclosing boundary (the failure disappears when the alias is replaced by a finite unfolding)",
                 SIG_SINGLE_BINDER => "a destructuring pattern with exactly one binder gives that binder the provenance of the whole matched value (compile_match: `bindings.len() == 1`), so the narrowing of the value re-types the binder (observed on recursive aliases: `=Cons[_, t] => t` types `t` as the Cons cell) (the failure disappears when the wildcards are unused binders)",
                 SIG_REPEATED => "a repeated identifier in a tuple pattern (`=[K[a], a]`) is an equality requirement, but the pattern still takes part in the per-field complement narrowing of later branches (the failure disappears when the repetition is written as a fresh binder plus a pin step)",
-                SIG_FIELD_COMPL_TYPED => "tuple-typed parameter: after a branch that records a field-specific complement (`=[D] => …`), a branch whose field pattern is a type-ascribed binder (`=[('int)v] => …`) makes the block count as exhaustive although other variants of the field remain (the failure disappears when the nested sub-pattern of the first branch is written `(P | P)`)",
+                SIG_FIELD_COMPL_TYPED => "tuple-typed parameter: after a branch that records a field-specific complement (`=[D] => …`), a branch whose field pattern is a type assertion (`=[('int)v] => …`, `=[_, 'int] => …`) makes the block count as exhaustive although other variants of the field remain (the failure disappears when the nested sub-pattern of the first branch is written `(P | P)`)",
                 SIG_ALT => "complement narrowing / exhaustiveness subtracts every alternative of an alternation pattern as its whole variant, also when the alternative cannot match that variant (e.g. a positional `B[_]` against a labelled twin `B[a: 'int]`) or constrains nested structure (the failure disappears when the branch is written as one branch per alternative)",
                 SIG_UNIFY_MERGE => "unify's union/union arm skips a widened binding that is not assignable to the existing one, losing the widening (the guards model types the call correctly under the take-widened rule)",
                 _ => "known finding",
